@@ -725,9 +725,62 @@ class Program:
                                 self._callers[t].append(i)
         return self._callers.get(fn, [])
 
+    # ---- type-directed resolution of sqfs_drop(obj): only destroy hooks of objects whose
+    # struct embeds the static type of `obj` at offset 0
+    def _first_chain(self, sname, unit=None):
+        out = [strip_suffix(sname)]
+        for _ in range(6):
+            s = self.struct(out[-1], unit)
+            if not s or not s["elems"]:
+                break
+            m = re.match(r"^%((?:struct|union)\.[\w.]+)$", s["elems"][0]["t"])
+            if not m or s["elems"][0]["off"] != 0:
+                break
+            out.append(strip_suffix(m.group(1)))
+        return out
+
+    def destroy_types(self):
+        if getattr(self, "_dtypes", None) is None:
+            dt = defaultdict(set)
+            for f in self.functions():
+                for c in f.calls():
+                    if c.callee == "sqfs_object_init" and len(c.ops) >= 2:
+                        t = static_struct_type(c.ops[0])
+                        for d in self.fn_targets(c.ops[1], f.unit):
+                            dt[d].add(t)
+            for slot, sites in getattr(self, "_slot_sites", {}).items():
+                if slot != ("struct.sqfs_object_t", "destroy"):
+                    continue
+                for i in sites:
+                    if i.fn.name == "sqfs_object_init":
+                        continue
+                    base = strip_casts(strip_casts(i.ops[1]).ops[0]) if strip_casts(i.ops[1]).is_inst else None
+                    m = re.match(r"^%((?:struct|union)\.[\w.]+)\*$", getattr(base, "ty", "") or "")
+                    for d in self.fn_targets(i.ops[0], i.fn.unit):
+                        dt[d].add(strip_suffix(m.group(1)) if m else None)
+            self._dtypes = dt
+        return self._dtypes
+
+    def drop_targets(self, call):
+        impls = self.slot_impls(("struct.sqfs_object_t", "destroy"))
+        t = static_struct_type(call.ops[0]) if call.ops else None
+        if t is None:
+            return impls
+        dt = self.destroy_types()
+        out = set()
+        for d in impls:
+            tys = dt.get(d) or {None}
+            for ot in tys:
+                if ot is None or t in self._first_chain(ot, d.unit):
+                    out.add(d)
+        return out
+
     def call_targets(self, call):
         """(set of Function|ExternFn, resolved: bool)"""
         c = call.callee
+        if c == "sqfs_drop":
+            self.slots
+            return (self.drop_targets(call), True)
         if c is not None:
             t = self.fn(c, call.fn.unit)
             return ({t} if t is not None else {ExternFn(norm_callee(c))}, True)
@@ -774,6 +827,20 @@ class ExternFn:
 
     def __repr__(self):
         return "<extern %s>" % self.name
+
+
+def static_struct_type(v):
+    """the struct pointee type a pointer value has somewhere along its cast chain
+    (`(T *)calloc()` passed on as void*): 'struct.T' or None"""
+    for _ in range(8):
+        m = re.match(r"^%((?:struct|union)\.[\w.]+)\*$", getattr(v, "ty", "") or "")
+        if m:
+            return strip_suffix(m.group(1))
+        if getattr(v, "is_inst", False) and v.op in ("bitcast", "addrspacecast"):
+            v = v.ops[0]
+            continue
+        break
+    return None
 
 
 def strip_casts(v):
